@@ -123,6 +123,16 @@ def check_hforms(ctx: Ctx, c: Dict[str, Any]) -> None:
             continue
         if got.shape[0] != e.shape[0] or max_err(got, e) > TOL * max(1.0, float(e.abs().max())):
             bad("homogeneous_matmul", f"chain ({label}) differs from the chain of pairwise products" + ("" if got.shape[0] == e.shape[0] else f" (batch {got.shape[0]} vs {e.shape[0]})"), chain=label, what="chain")
+    # operands of integer dtype (e.g. a permutation / flip matrix, a voxel shift) compose like the same numbers in floating point
+    try:
+        ai_ = (a * 2).round().to(torch.int64)
+        for label, x_, y_ in (("int, float", ai_, b), ("float, int", b, ai_), ("int, int", ai_, ai_)):
+            got = as_homogeneous_matrix(homogeneous_matmul(x_, y_)).double().reshape(-1, D, D + 1)
+            ref_ = as_homogeneous_matrix(homogeneous_matmul(x_.double(), y_.double())).double().reshape(-1, D, D + 1)
+            if got.shape != ref_.shape or max_err(got, ref_) > TOL * max(1.0, float(ref_.abs().max())):
+                bad("homogeneous_matmul", f"operands of dtype ({label}) give another product than the same operands in float64", what="int_dtype", dtypes=label)
+    except Exception as ex:
+        bad("homogeneous_matmul", f"integer-typed operand raised {type(ex).__name__}: {str(ex)[:100]}", exc=type(ex).__name__, what="int_dtype")
     # conversion to a full matrix with an extra translation offset: the linear part stays, the offset ADDS to the translation
     from deepali.core.linalg import homogeneous_matrix
 
